@@ -80,6 +80,7 @@ type Agent struct {
 	initOnce sync.Once
 	mu       sync.Mutex
 	started  bool
+	runID    uint64 // identifies the run that set started; an older run never clears a newer run's flag
 	stopCh   chan struct{}
 	waitCh   chan error
 	nodeInfo ethnode.UserAgent // cached during Start
@@ -104,19 +105,28 @@ func (a *Agent) Start(p pool.Pool) error {
 		return ErrAlreadyStarted
 	}
 	a.started = true
+	a.runID++
+	runID := a.runID
 	a.mu.Unlock()
 
-	if err := a.start(p); err != nil {
-		a.mu.Lock()
-		a.started = false
-		a.mu.Unlock()
+	if err := a.start(p, runID); err != nil {
+		a.finished(runID)
 		return err
 	}
 	return nil
 }
 
+// finished marks the agent as not started, unless a newer run has started since.
+func (a *Agent) finished(runID uint64) {
+	a.mu.Lock()
+	if a.runID == runID {
+		a.started = false
+	}
+	a.mu.Unlock()
+}
+
 // start does the work of Start once the agent is marked as started.
-func (a *Agent) start(p pool.Pool) error {
+func (a *Agent) start(p pool.Pool, runID uint64) error {
 	startCtx, cancel := context.WithTimeout(context.Background(), startTimeout)
 	defer cancel()
 
@@ -154,10 +164,8 @@ func (a *Agent) start(p pool.Pool) error {
 	}
 
 	go func() {
-		err := a.serveUpdates(p)
-		a.mu.Lock()
-		a.started = false
-		a.mu.Unlock()
+		err := a.serveUpdates(p, runID)
+		a.finished(runID)
 		a.waitCh <- err
 	}()
 	return nil
@@ -182,7 +190,7 @@ func (a *Agent) Wait() error {
 	return <-a.waitCh
 }
 
-func (a *Agent) serveUpdates(p pool.Pool) error {
+func (a *Agent) serveUpdates(p pool.Pool, runID uint64) error {
 	interval := a.UpdateInterval
 	if interval == 0 {
 		interval = store.KeepaliveInterval
@@ -196,9 +204,7 @@ func (a *Agent) serveUpdates(p pool.Pool) error {
 				return err
 			}
 		case <-a.stopCh:
-			a.mu.Lock()
-			a.started = false
-			a.mu.Unlock()
+			a.finished(runID)
 
 			// FIXME: Does it make sense to call a.disconnectPeers(...) here?
 			return nil
